@@ -278,6 +278,11 @@ def _fam_R(res, unit):
       case = dict(transform=t, program=dsl.tolist(dT))
       res['evals'] += 3
       res['transitions'] += 1
+      # start from cold caches so that the first run traces (cache miss) and the second
+      # replays the cached trace (hit): the two must hand out the same keys
+      from flax.core import lift as _lift
+      jax.clear_caches()
+      _lift._side_effect_cache.cache.clear()
       oT, vT = dsl.make('A', dT).init_with_output(rngs, x)
       oT2, _ = dsl.make('A', dT).init_with_output(rngs, x)
       oP, vP = dsl.make('A', dP).init_with_output(rngs, x)
@@ -307,6 +312,10 @@ def _fam_R(res, unit):
       # apply: same clauses
       res['evals'] += 2
       aT = dsl.make('A', dT).apply(vT, x, rngs={'dropout': rngs['dropout']}, mutable=['cnt'])[0]
+      aT2 = dsl.make('A', dT).apply(vT, x, rngs={'dropout': rngs['dropout']}, mutable=['cnt'])[0]
+      if canon_tree(np_tree(aT)) != canon_tree(np_tree(aT2)):
+        core.violation(res, f'R-apply-nondet|{key}', 'apply: a traced run and a cached run hand '
+                       'out different keys', case)
       aP = dsl.make('A', dP).apply(vP, x, rngs={'dropout': rngs['dropout']}, mutable=['cnt'])[0]
       kaT = [tuple(np.asarray(k).tolist()) for k in aT['k']]
       kaP = [tuple(np.asarray(k).tolist()) for k in aP['k']]
@@ -524,7 +533,7 @@ def _fam_H(res, unit):
         r = dsl.make('A', d).apply(v, x, rngs=ar, mutable=mut)
         return (r, None) if mut is False else r
       T = _run(lambda: ap(dT))
-      traced = sum(1 for c, _ in dsl.TRACES[t0:] if c == dsl.CLS[tk].__name__)
+      traced = sum(1 for _, dd in dsl.TRACES[t0:] if dd == body)
       P = _run(lambda: ap(dP))
       key = f'H|{[CALL_KINDS[c] for c in hist[:pos + 1]]!r}'
       case = dict(history=[list(map(jsonable, CALL_KINDS[c])) for c in hist[:pos + 1]])
